@@ -10,8 +10,10 @@ import hashlib, json, os, random, re, shutil, subprocess, sys, time
 VERIF = os.path.dirname(os.path.dirname(os.path.abspath(__file__)))
 REPO = os.environ.get("VERIF_REPO", "/repo")
 SPEC = os.path.join(VERIF, "spec")
-WORK = os.path.join(VERIF, ".work")
-BUILD = os.path.join(VERIF, ".build")
+WORK = os.environ.get("VERIF_WORK") or os.path.join(VERIF, ".work")
+# one overlay per target tree, so that checks may run concurrently against /repo and scratch worktrees
+BUILD = os.path.join(VERIF, ".build") if REPO == "/repo" else os.path.join(
+    VERIF, ".build", "alt-" + hashlib.sha1(REPO.encode()).hexdigest()[:10])
 TLA_CP = "/opt/veriftools/tla/tla2tools.jar:/opt/veriftools/tla/CommunityModules-deps.jar"
 
 
@@ -36,7 +38,7 @@ def goenv(extra=None):
 
 def gen_overlay():
     r = subprocess.run([sys.executable, os.path.join(VERIF, "overlay", "gen_overlay.py")],
-                       capture_output=True, text=True, env=goenv())
+                       capture_output=True, text=True, env=goenv({"VERIF_REPO": REPO, "VERIF_BUILD": BUILD}))
     if r.returncode != 0:
         raise Infra("overlay generation failed: " + r.stderr)
     return os.path.join(BUILD, "overlay.json")
@@ -92,7 +94,7 @@ class TlcResult:
                     ok=self.ok, violation=self.violation, wall_s=round(self.wall, 2))
 
 
-def tlc(spec_dir, module, cfg, workdir, workers=None, timeout=900, args=None, java_opts=None, heap=None):
+def tlc(spec_dir, module, cfg, workdir, workers=None, timeout=900, args=None, java_opts=None, heap=None, files=None):
     """Run TLC on <spec_dir>/<module>.tla with <cfg>.  All spec dirs are copied to a scratch
     dir first (TLC litters).  The verdict is parsed from the output, never from the exit code."""
     os.makedirs(workdir, exist_ok=True)
@@ -105,6 +107,8 @@ def tlc(spec_dir, module, cfg, workdir, workers=None, timeout=900, args=None, ja
             for fn in os.listdir(d):
                 if fn.endswith((".tla", ".cfg")):
                     shutil.copy(os.path.join(d, fn), os.path.join(sd, fn))
+    for dst, src in (files or {}).items():      # extra input files (e.g. trace.ndjson) placed next to the spec
+        shutil.copy(src, os.path.join(sd, dst))
     md = os.path.join(workdir, "md.%d" % (int(time.time() * 1000) % 10**9))
     cmd = ["java", "-XX:+UseParallelGC"]
     if heap:
@@ -681,3 +685,33 @@ def random_walks(n_states_out, start, n, length, rng):
             cur = d
         walks.append(w)
     return walks
+
+
+# --------------------------------------------------------------------------- trace validation (direction B)
+
+def validate_trace(spec_dir, module, cfg, workdir, trace_path, timeout=900, dfs=False):
+    """Validate a recorded ndjson trace against a *Trace.tla spec (POSTCONDITION TraceAccepted).
+    Returns (accepted, matched_events, total_events, TlcResult).  TLC runs with one worker; with dfs=True the
+    depth-first queue is used (trace specs that branch on unlogged choices)."""
+    total = sum(1 for line in open(trace_path) if line.strip())
+    jo = ["-Dtlc2.tool.queue.IStateQueue=StateDeque"] if dfs else None
+    res = tlc(spec_dir, module, cfg, workdir, workers=1, timeout=timeout, java_opts=jo,
+              files={"trace.ndjson": trace_path})
+    matched = max(res.depth - 1, 0)
+    if res.violation == "timeout" or (not res.ok and res.violation in (None, "error") and "ostcondition" not in res.out):
+        raise Infra("trace validation produced no verdict (%s):\n%s" % (res.violation, res.out[-3000:]))
+    accepted = res.ok and matched == total
+    return accepted, matched, total, res
+
+
+def corrupt_trace(trace_path, out_path, rng, mode):
+    """Binding self-test helper: produce a corrupted copy of a trace (drop one event / alter one field)."""
+    lines = [l for l in open(trace_path) if l.strip()]
+    idx = [i for i, l in enumerate(lines) if '"Reset"' not in l]
+    i = idx[rng.randrange(len(idx))]
+    if mode == "drop":
+        del lines[i]
+    else:
+        return None
+    open(out_path, "w").writelines(lines)
+    return i
